@@ -173,7 +173,7 @@ def run_one(seed, preset=None, tier="quick", want_case=False):
     r["digest"] = run_digest(out.trace, out.events, out.resp, repr(out.exc))
     r["case_digest"] = run_digest(str(ty), value_str(S))
     r["nontrivial"] = bool(not viol and compared >= 3)
-    r["sched_kinds"] = {sched[0]: 1}
+    r["sched_kinds"] = {sched[0] + ("+eager" if sched[2].endswith("+eager") else ""): 1}
     r["metrics"] = {"spellings_compared": compared}
     r["probes"] = {"nested_variable_spelling": int(bool(nested_vars)), "runtime_null_for_non_null_argument": int(S[0] != "null"),
                    "value_is_null": int(S[0] == "null"), "input_object_value": int(S[0] == "obj"), "list_value": int(S[0] == "list"),
